@@ -201,6 +201,8 @@ def _equal3(a, b, facts):
         return False           # a value that is not the None of this configuration is an object
     if sa in facts.distinct and sb in facts.distinct:
         return False
+    if sa and sb and sa[0] in "'\"" and sb[0] in "'\"":
+        return False           # two different string constants
     sg = _sign(d, facts)
     if sg in ("+", "-"):
         return False
@@ -499,9 +501,23 @@ class GenEval(AutoEvaluator):
                     return F.sym("True" if t else "False")
             return v
         if isinstance(node, ast.JoinedStr):
-            return F.sym("<text>")
+            parts = []
+            for x in node.values:
+                if isinstance(x, ast.Constant) and isinstance(x.value, str):
+                    parts.append(x.value)
+                elif isinstance(x, ast.FormattedValue) and x.format_spec is None and x.conversion == -1 and strconst(self.ev(x.value)) is not None:
+                    parts.append(strconst(self.ev(x.value)))
+                else:
+                    return F.sym("<text>")
+            return F.sym(repr("".join(parts)))
         if isinstance(node, ast.BinOp) and isinstance(node.op, ast.Mod) and isinstance(node.left, ast.Constant) and isinstance(node.left.value, str):
             return F.sym("<text>")
+        if isinstance(node, ast.BinOp) and isinstance(node.op, ast.Add):
+            a, b = self.ev(node.left), self.ev(node.right)
+            if strconst(a) is not None and strconst(b) is not None:
+                return F.sym(repr(strconst(a) + strconst(b)))
+            if isinstance(a, tuple) and isinstance(b, tuple):
+                return a + b
         if isinstance(node, ast.NamedExpr):
             v = self.ev(node.value)
             self._assign(node.target, v, node)
@@ -631,6 +647,18 @@ class GenEval(AutoEvaluator):
                 return Unknown("dict with a key that is not a constant")
             self.env[f"{s}[{slot_key(ck)}]"] = v
         return F.sym(s)
+
+    def dict_view(self, obj, what="keys"):
+        """keys / values / items of a dict built here, in insertion order"""
+        out = []
+        for slot in self.heap_slots(obj):
+            try:
+                key = ast.literal_eval(slot[len(obj) + 1:-1])
+            except Exception:  # noqa
+                return Unknown("dict key")
+            kv = F.sym(repr(key)) if isinstance(key, str) else F.const(key)
+            out.append(kv if what == "keys" else (self.env[slot] if what == "values" else (kv, self.env[slot])))
+        return tuple(out)
 
     def heap_slots(self, obj):
         return [k for k in self.env if k.startswith(obj + ".") or k.startswith(obj + "[")]
@@ -837,14 +865,25 @@ class GenEval(AutoEvaluator):
             return self.canon_dotted(f)
         return None
 
-    def _record_call(self, node):
-        name = self._callee_name(node)
-        if name is None and isinstance(node.func, ast.Attribute):
-            name = "." + node.func.attr
+    def _record_call(self, node, name=None):
+        """one call the evaluator does not follow: (name, positional values, keyword values) with `*seq` / `**dict` expanded; a method of a
+        value that is not a named object is recorded as '.method' with the receiver as the first positional value"""
+        name = name or self._callee_name(node)
+        recv = None
+        if isinstance(node.func, ast.Attribute) and (name is None or isinstance(node.func.value, ast.Name) and node.func.value.id in self.env):
+            bv = self.ev(node.func.value)
+            if name is None or (isinstance(bv, F.Rat) and symname(bv) is None):
+                name, recv = "." + node.func.attr, bv
         if name is None:
             return
-        pos = [self.ev(a) for a in node.args if not isinstance(a, ast.Starred)]
-        kws = {k.arg: self.ev(k.value) for k in node.keywords if k.arg is not None}
+        av = self._argvals(node)
+        if av is not None:
+            pos, kws = av
+        else:
+            pos = [self.ev(a) for a in node.args if not isinstance(a, ast.Starred)]
+            kws = {k.arg: self.ev(k.value) for k in node.keywords if k.arg is not None}
+        if recv is not None:
+            pos = [recv] + list(pos)
         self.seq += 1
         self.call_seq.append(self.seq)
         self.calls.append((name, pos, kws, node))
@@ -1077,18 +1116,36 @@ class GenEval(AutoEvaluator):
                 lo, hi = (0, ks[0]) if len(ks) == 1 else ks
                 if 0 <= hi - lo <= 16:
                     return tuple(F.const(k) for k in range(lo, hi))
-        if meth in ("get",) and isinstance(node.func, ast.Attribute) and 1 <= len(args) <= 2 and not kw:
+        if meth in ("get", "pop", "keys", "values", "items", "clear") and isinstance(node.func, ast.Attribute) and len(args) <= 2 and not kw:
             b_ = symname(self.ev(node.func.value))
             if b_ is not None and self.heap.get(b_) == "dict":
-                ck = self._const_key(self.ev(args[0]))
-                if ck is None:
-                    return Unknown("dict.get with a key that is not a constant")
-                k_ = f"{b_}[{slot_key(ck)}]"
-                if k_ in self.env:
-                    return self.env[k_]
-                return self.ev(args[1]) if len(args) == 2 else NONE
+                if meth in ("keys", "values", "items") and not args:
+                    return self.dict_view(b_, meth)
+                if meth == "clear" and not args:
+                    for k_ in self.heap_slots(b_):
+                        del self.env[k_]
+                        self.heap_written.add(k_)
+                    return NONE
+                if meth in ("get", "pop") and args:
+                    ck = self._const_key(self.ev(args[0]))
+                    if ck is None:
+                        return self._lost(f"dict.{meth} with a key that is not a constant")
+                    k_ = f"{b_}[{slot_key(ck)}]"
+                    if k_ in self.env:
+                        v = self.env[k_]
+                        if meth == "pop":
+                            del self.env[k_]
+                            self.heap_written.add(k_)
+                        return v
+                    if len(args) == 2:
+                        return self.ev(args[1])
+                    return NONE if meth == "get" else Unknown(f"key {ck!r} of the dict is not defined")
 
-        self._record_call(node)
+        self._record_call(node, name if (fv is not None and name in self.inline) else None)
+        if name is not None and name not in self.inline and self.tracked is not None and self._own_code(name) and name.split(".")[-1] not in self.opaque_ok:
+            for v in [self.ev(a) for a in args if not isinstance(a, ast.Starred)] + [self.ev(x) for x in kw.values()]:
+                if self._is_view(v):
+                    return self._lost(f"`{ast.unparse(node)[:60]}`: a function that is not followed receives a view of a solution array")
 
         if name in ("np.eye", "np.identity", "numpy.eye", "numpy.identity"):
             return F.const(1)
@@ -1135,6 +1192,49 @@ class GenEval(AutoEvaluator):
         if not is_unknown(r):
             return r
         return self._opaque_call(node, name, r)
+
+    tracked = None          # predicate: root value -> True when it is one of the arrays the rule watches (None: no such arrays)
+    opaque_ok = frozenset()   # functions the rule deliberately does not follow
+
+    def _own_code(self, name):
+        """a call that may run code of this package: a method of self / a bare name that is neither a builtin nor an imported library module"""
+        import builtins
+        if name.startswith("self.") and name.count(".") == 1:
+            return True
+        if "." in name:
+            return name.split(".")[0] in self._own_modules()
+        return not hasattr(builtins, name)
+
+    def _own_modules(self):
+        """local names bound to modules of this package (`from pyyeti import ytools`, `from . import _utilities as ut`)"""
+        m = getattr(self.fn, "_vmod", None)
+        if m is None:
+            return ()
+        g = getattr(m, "_c08_ownmods", None)
+        if g is None:
+            g = set()
+            for st in ast.walk(m.tree):
+                if isinstance(st, ast.ImportFrom) and (st.level >= 1 or (st.module or "").split(".")[0] == "pyyeti"):
+                    for al in st.names:
+                        g.add(al.asname or al.name)
+                elif isinstance(st, ast.Import):
+                    for al in st.names:
+                        if al.name.split(".")[0] == "pyyeti":
+                            g.add((al.asname or al.name).split(".")[0])
+            m._c08_ownmods = g
+        return g
+
+    def _is_view(self, v):
+        if v is None or is_unknown(v):
+            return False
+        if isinstance(v, tuple):
+            return any(self._is_view(x) for x in v)
+        if not isinstance(v, F.Rat):
+            return False
+        if self.tracked(v):
+            return True
+        u = sem.unfn(v)
+        return u is not None and u[0] == "ref" and not isinstance(u[1][0], str) and self.tracked(u[1][0])
 
     def _arith(self, op, a, b):
         if is_unknown(a):
@@ -1195,22 +1295,23 @@ class GenEval(AutoEvaluator):
                 name = "." + node.func.attr
             else:
                 return r
-        for a in node.args:
-            v = self.ev(a)
+        av = self._argvals(node)
+        if av is None:
+            return Unknown("starred arguments that are not sequences built here")
+        for v in av[0]:
             if is_unknown(v):
                 return v
             if isinstance(v, tuple):
-                if any(is_unknown(x) or isinstance(x, tuple) for x in v):
+                if any(is_unknown(x) or isinstance(x, tuple) or not isinstance(x, F.Rat) for x in v):
                     return Unknown("nested tuple argument")
                 v = F.fn("tuple", *[need(x) for x in v])
+            if not isinstance(v, F.Rat):
+                return Unknown(f"argument {v!r}")
             args.append(need(v))
-        for k in node.keywords:
-            if k.arg is None:
-                return Unknown("**kwargs")
-            v = self.ev(k.value)
-            if is_unknown(v) or isinstance(v, tuple):
-                return Unknown(f"keyword {k.arg}")
-            args.append(F.fn("kw:" + k.arg, need(v)))
+        for k, v in av[1].items():
+            if is_unknown(v) or isinstance(v, tuple) or not isinstance(v, F.Rat):
+                return Unknown(f"keyword {k}")
+            args.append(F.fn("kw:" + k, need(v)))
         return F.fn("call:" + name, *args)
 
     # ---- following a helper on its argument values
@@ -1294,6 +1395,7 @@ class GenEval(AutoEvaluator):
         sub.fresh = self.fresh
         sub.in_loop = False
         sub.carry_over = self.carry_over
+        sub.tracked, sub.opaque_ok = self.tracked, self.opaque_ok
         return sub
 
     def _merge(self, sub, keep_loop_flags=False):
@@ -1571,6 +1673,8 @@ class GenEval(AutoEvaluator):
 
     def _for(self, st):
         it = self.ev(st.iter)
+        if isinstance(it, F.Rat) and self.heap.get(symname(it)) == "dict":
+            it = self.dict_view(symname(it))
         if isinstance(it, tuple) and not st.orelse and not _contains(st.body, (ast.Break, ast.Continue)):
             for x in it:
                 self._assign(st.target, x, st)
@@ -1611,6 +1715,13 @@ class GenEval(AutoEvaluator):
             elif isinstance(v, tuple) and len(v) == n and not stars:
                 for t, x in zip(target.elts, v):
                     self._assign(t, x, st)
+            elif len(stars) == 1 and isinstance(v, F.Rat) and sem.unfn(v) is not None and (sem.unfn(v)[0].startswith("call:") or sem.unfn(v)[0] == "item"):
+                # an opaque sequence of unknown length: the items before the star are known by position
+                for k, t in enumerate(target.elts):
+                    if k < stars[0]:
+                        self._assign(t, F.fn("item", v, F.const(k)), st)
+                    else:
+                        self._assign(t.value if isinstance(t, ast.Starred) else t, Unknown("item of a sequence of unknown length"), st)
             elif v is not None and not is_unknown(v) and not isinstance(v, tuple) and sem.unfn(v) is not None \
                     and (sem.unfn(v)[0].startswith("call:") or sem.unfn(v)[0] == "item"):
                 for k, t in enumerate(target.elts):
@@ -1673,4 +1784,22 @@ def inline_table(ctx, specs, exclude=()):
             out.setdefault(k, v)                      # generator functions too: followed only through `yield from`
             if k.startswith("self.") and cls:
                 out.setdefault(f"{cls}.{k[5:]}", v)   # Class.method(self, ...)
+    # functions of sibling modules the listed modules import by name (`from ._utilities import _helper`): a helper may live there
+    for rel, _cls in specs:
+        try:
+            m = ctx.src.mod(rel)
+        except Exception:  # noqa
+            continue
+        for st in m.tree.body:
+            if isinstance(st, ast.ImportFrom) and st.level >= 1 and st.module:
+                base = rel.rsplit("/", st.level)[0]
+                rel2 = f"{base}/{st.module.replace('.', '/')}.py"
+                try:
+                    m2 = ctx.src.mod(rel2)
+                except Exception:  # noqa
+                    continue
+                for al in st.names:
+                    f2 = m2.funcs.get(al.name)
+                    if f2 is not None and al.name not in exclude:
+                        out.setdefault(al.asname or al.name, f2)
     return out
